@@ -167,9 +167,10 @@ def run_kani_set(pl, tier, obligations, assumptions, meta, filters=None, tag="k"
     # harnesses that produced no verdict for a resource reason (CBMC out of memory under parallel load, or missing from
     # the interleaved output) are run once more, two at a time
     retry = [n for n in sorted(expected) if n not in res or (res[n].status == "error" and re.search(r"out of memory|Killed|signal", res[n].text))]
-    if res and retry and len(retry) <= 64:
+    if res and retry:
+        # (the Kani driver itself can die when the machine runs out of memory; everything it had not reported yet is retried)
         res2, text2, wall2, rc2, cmd2 = kbackend.run_kani(ov, retry, harness_timeout=ht, total_timeout=pl.get("total_timeout", {}).get(tier, 3600 if tier == "quick" else 6 * 3600),
-                                                      features=pl.get("kani_features"), jobs=2, exact=False)
+                                                      features=pl.get("kani_features"), jobs=2 if len(retry) <= 8 else max(2, common.ncpu() // 4), exact=False)
         meta["kani_runs"].append({"cmd": cmd2, "wall_s": round(wall2, 1), "rc": rc2, "harnesses": len(res2), "retry_of": len(retry)})
         for n, h in res2.items():
             if n in retry:
